@@ -4,7 +4,7 @@
    the effect of prune_repository on an abstract repository; the decision tables are regenerated
    from prune.rs into Extracted.v on every run.  Blob identity is the key the planner uses (b_key, regenerated from the source). *)
 From Verif.Base Require Import Tactics.
-From Verif.C02 Require Import ModelBase Extracted Model Spec Proofs Proofs2 Proofs3 Proofs4 Proofs5 Proofs6 Proofs7 Proofs8.
+From Verif.C02 Require Import ModelBase Extracted Model ModelUsed Spec Proofs Proofs2 Proofs3 Proofs4 Proofs5 Proofs6 Proofs7 Proofs8 Proofs9 Proofs10 Proofs11 Proofs12.
 Local Open Scope N_scope.
 
 (* Decision table of decide_packs as found in the source: a pack accounted >= 1 used blob is kept,
@@ -124,3 +124,69 @@ Print Assumptions prune_keeps_used_typed.
 Theorem planner_key_is_typed : forall b t i, b_key b = used_key t i -> b_tpe b = t /\ b_id b = i.
 Proof. exact key_typed. Qed.
 Print Assumptions planner_key_is_typed.
+
+(* ------------------------------------------------------------------------------------------------
+   decide_repack, modelled exactly (limit expressions, keep condition, ordering key and resize rule
+   regenerated from prune.rs; `repack_decisions` lists every candidate with its decision, `plan` uses it
+   and the correspondence compares the predicted decisions with the real planner's). *)
+
+(* max_repack: the used bytes of the packs decided Repack (what the code adds to `repack_size`) never
+   exceed the limit (a size, or saturating p * total / 100). *)
+Theorem max_repack_respected : forall o ps L,
+  max_repack_of o ps = Some L -> repacked_size (repack_decisions o ps) <= L.
+Proof. exact max_repack_respected_lemma. Qed.
+Print Assumptions max_repack_respected.
+
+(* max_unused: a partly used DATA pack is left as it is only when, at the end of the run, the unused bytes
+   that stay (unused - removed - dropped by repacking) are below the limit, or repacking it would have
+   reached max_repack ("nothing more can be repacked").  Tree packs with unused blobs are not subject to
+   max_unused at all. *)
+Theorem max_unused_respected : forall o ps p,
+  In (p, Keep) (repack_decisions o ps) -> cand_reason p = PartlyUsed -> pi_type (info_of p) = Data ->
+  lim_lt (size_unused ps - size_remove ps - rs_rm (repack_loop o ps)) (max_unused_of o ps) = true
+  \/ lim_ge (accepted (repack_loop o ps) + used_sz p) (max_repack_of o ps) = true.
+Proof. exact max_unused_respected_lemma. Qed.
+Print Assumptions max_unused_respected.
+
+(* no_resize: a pack that is a candidate only because of its size is kept. *)
+Theorem no_resize_keeps_sizes : forall o ps p t,
+  o_no_resize o = true -> In (p, t) (repack_decisions o ps) -> cand_reason p = SizeMismatch -> t = Keep.
+Proof. exact no_resize_lemma. Qed.
+Print Assumptions no_resize_keeps_sizes.
+
+(* keep_pack: an unmarked pack created less than keep_pack before the plan time is kept — for every
+   option record and every repack decision procedure. *)
+Theorem keep_pack_protects_young_packs : forall dec o fs used existing pl p t,
+  plan_with dec o fs used existing = inr pl -> In p (pl_packs pl) ->
+  pp_mark p = false -> pp_time p = Some t -> (t > o_now o - o_keep_pack o)%Z -> pp_todo p = Keep.
+Proof. exact keep_pack_lemma. Qed.
+Print Assumptions keep_pack_protects_young_packs.
+
+(* repack_all (with max_repack unlimited): every unmarked pack holding a used blob that is neither too
+   young nor protected by repack_cacheable_only is repacked. *)
+Theorem repack_all_repacks_everything_not_young : forall o fs used existing pl p,
+  plan o fs used existing = inr pl -> In p (pl_packs pl) ->
+  o_all o = true -> o_max_repack o = LUnlimited ->
+  pp_mark p = false -> 1 <= pi_used_blobs (info_of p) ->
+  g_too_young (guards_of o p) = false -> g_keep_uncacheable (guards_of o p) = false ->
+  pp_todo p = Repack.
+Proof. exact repack_all_lemma. Qed.
+Print Assumptions repack_all_repacks_everything_not_young.
+
+(* ------------------------------------------------------------------------------------------------
+   find_used_blobs and forget.  `reach st t k`: blob key k (type and id) is needed to restore tree t. *)
+Theorem used_ids_complete : forall fuel st roots used,
+  find_used fuel st roots = Some used -> forall r k, In r roots -> reach st r k -> In k used.
+Proof. exact used_ids_complete_lemma. Qed.
+Print Assumptions used_ids_complete.
+
+(* The chain closed: whatever is forgotten, a snapshot that is still present keeps every blob reachable
+   from its root tree — under its type, in an existing pack listed unmarked — through any prune run. *)
+Theorem present_snapshots_stay_restorable : forall fuel st ids snaps used dec packer nid o fs existing pl out,
+  find_used fuel st (roots_of (forget ids snaps)) = Some used ->
+  packer_ok packer (taken fs existing) ->
+  prune_with dec packer nid o fs used existing = inr (pl, out) ->
+  forall s t i, In s snaps -> ~ In (fst s) ids -> reach st (snd s) (used_key t i) ->
+  avail_after_typed (o_now o) fs existing out t i.
+Proof. exact present_snapshots_lemma. Qed.
+Print Assumptions present_snapshots_stay_restorable.
